@@ -32,9 +32,26 @@ func genCrashPlan(prop, backend string, seed uint64, tier string) *Plan {
 	if backend == "sqlite" {
 		n = 4 + r.Intn(12)
 	}
+	base := p.Alphabet
+	// a key hand-over of realistic size: one Import of 20-50 keys (acknowledged once, so a stop
+	// inside it must leave all of it or nothing)
+	var bulk []string
+	if backend != "sqlite" && r.Chance(0.35) {
+		for i := 0; i < 20+r.Intn(31); i++ {
+			bulk = append(bulk, fmt.Sprintf("bulk%02d", i))
+		}
+		p.Alphabet = append(append([]string{}, base...), bulk...)
+	}
+	bulkAt := -1
+	if bulk != nil {
+		bulkAt = r.Intn(n)
+	}
 	val := 0
 	for i := 0; i < n; i++ {
-		op := Op{Kind: pick(r, "put", "put", "del", "pappend", "pappend", "pappend", "premove", "import", "removekeys"), Key: p.Alphabet[r.Intn(len(p.Alphabet))]}
+		if i == bulkAt {
+			p.Ops = append(p.Ops, Op{Kind: "import", Keys: append([]string{}, bulk...)})
+		}
+		op := Op{Kind: pick(r, "put", "put", "del", "pappend", "pappend", "pappend", "premove", "import", "removekeys"), Key: base[r.Intn(len(base))]}
 		switch op.Kind {
 		case "put":
 			val++
@@ -48,10 +65,13 @@ func genCrashPlan(prop, backend string, seed uint64, tier string) *Plan {
 				op.Val = ""
 			}
 		case "import", "removekeys":
-			for _, k := range p.Alphabet {
+			for _, k := range base {
 				if r.Chance(0.5) {
 					op.Keys = append(op.Keys, k)
 				}
+			}
+			if bulk != nil && op.Kind == "removekeys" && r.Chance(0.3) {
+				op.Keys = append(op.Keys, bulk[:len(bulk)/2]...)
 			}
 		}
 		if backend == "sqlite" && r.Chance(0.15) {
